@@ -1463,6 +1463,24 @@ def std_model(I, p, fr, t, args):
                 return Adt("core::result::Result", "Err", {"0": e})
             if isinstance(e, Sym):
                 return Adt("core::result::Result", "Err", {"0": e})
+    # combinators on an Option of unknown shape: both shapes, the payload named after the option
+    if isinstance(d0, Sym) and sadt == "core::option::Option" and c.startswith("core::option::") and n in ("map_or_else", "map_or", "map", "is_some", "is_none", "unwrap_or_else"):
+        depth = getattr(fr, "depth", 0)
+        payload = d0.field("0")
+        f1 = args[1] if len(args) > 1 else None
+        some_v = none_v = None
+        if n == "map_or_else" and isinstance(f1, FnVal) and len(args) > 2 and isinstance(args[2], FnVal):
+            none_v, some_v = I.call_value(f1, [], depth), I.call_value(args[2], [payload], depth)
+        elif n == "map_or" and len(args) > 2 and isinstance(args[2], FnVal):
+            none_v, some_v = args[1], I.call_value(args[2], [payload], depth)
+        elif n == "map" and isinstance(f1, FnVal):
+            none_v, some_v = Adt("core::option::Option", "None", {}), Adt("core::option::Option", "Some", {"0": I.call_value(f1, [payload], depth)})
+        elif n == "unwrap_or_else" and isinstance(f1, FnVal):
+            none_v, some_v = I.call_value(f1, [], depth), payload
+        elif n in ("is_some", "is_none"):
+            none_v, some_v = (n == "is_none"), (n == "is_some")
+        if some_v is not None or none_v is not None:
+            return Fork([("%s is Some" % d0.name, some_v), ("%s is None" % d0.name, none_v)])
     # Option / Result combinators taking closures (evaluated by nested interpretation)
     if isinstance(d0, Adt) and d0.path in ("core::option::Option", "core::result::Result") and sadt in ("core::option::Option", "core::result::Result"):
         depth = getattr(fr, "depth", 0)
